@@ -765,6 +765,13 @@ func (w *L1World) fabricate(b *wBridge, n int) []Withdrawal {
 			denom = ref.L2Denom(b.id, mon.Pick(w.rng, w.env.Denoms))
 		}
 		wd := Withdrawal{BridgeID: b.id, Seq: b.nextL2, From: fmt.Sprintf("l2user%d", w.rng.Intn(5)), To: w.anyUser().String(), Denom: denom, Amount: uint64(1 + w.rng.Intn(3000))}
+		if w.rng.Chance(6) {
+			// the named recipient is whoever the L2 user named: a module account on the bank's block list, the ophost module,
+			// or this bridge's own escrow are paid like anybody else (and nobody else is)
+			wd.To = mon.Pick(w.rng, []sdk.AccAddress{authtypes.NewModuleAddress(authtypes.FeeCollectorName), authtypes.NewModuleAddress("distribution"),
+				authtypes.NewModuleAddress("gov"), authtypes.NewModuleAddress(ophosttypes.ModuleName), refBridgeAddr(b.id)}).String()
+			w.feat["module_recipient"]++
+		}
 		b.nextL2++
 		out = append(out, wd)
 		b.all = append(b.all, wd)
@@ -1152,6 +1159,17 @@ func (w *L1World) deliverClaim(b *wBridge, m *ophosttypes.MsgFinalizeTokenWithdr
 				tb.ledger[d] = new(big.Int)
 			}
 			tb.ledger[d].Sub(tb.ledger[d], m.Amount.Amount.BigInt())
+		}
+		// a recipient that is some bridge's escrow address receives the money like a plain transfer from a third party
+		if to, err := sdk.AccAddressFromBech32(m.To); err == nil {
+			for id, ob := range w.br {
+				if to.Equals(refBridgeAddr(id)) {
+					if ob.ledger[m.Amount.Denom] == nil {
+						ob.ledger[m.Amount.Denom] = new(big.Int)
+					}
+					ob.ledger[m.Amount.Denom].Add(ob.ledger[m.Amount.Denom], m.Amount.Amount.BigInt())
+				}
+			}
 		}
 		expect.add(refBridgeAddr(m.BridgeId).String(), m.Amount.Denom, new(big.Int).Neg(m.Amount.Amount.BigInt()))
 		expect.add(m.To, m.Amount.Denom, m.Amount.Amount.BigInt())
